@@ -328,6 +328,13 @@ def r17_6(cx):
                     % (short(wr.name), sorted(set(short(k.callee) for k in wr.calls() if side in k.callee and 'read_n' not in k.callee)), anch, len(ac)))
             continue
         cx.ok('anchored-entry:' + short(side), wr, ac[0].loc(), 'the buffer goes through %s exactly once' % anch)
+        # the wrapper asks read_n for exactly what it was asked: reader, count and attempts are its own parameters as they stand
+        # (`count.max(1)` turns a zero-count read into a real one)
+        rns = list(wr.calls(side + '::read_n'))
+        okp = len(rns) == 1 and all(a.strip().kind == 'param' for a in rns[0].args()[1:]) and \
+            [a.strip().info['i'] for a in rns[0].args()[1:]] == list(range(2, 2 + len(rns[0].args()) - 1))
+        cx.check(okp, 'forwards-request:' + short(side), wr, rns[0].loc() if rns else None, 'read_n(reader, count, attempts) with the wrapper\'s own arguments',
+                 fail_detail='%s does not pass its (reader, count, attempts) to read_n unchanged' % short(wr.name))
         c = ac[0]
         gated = any(e.kind == 'discr' and val == ('in', frozenset([0])) and e.has_call('Try>::branch') and e.has_call(side + '::read_n')
                     for e, val, ed in wr.facts_at(c.bb))
